@@ -20,7 +20,7 @@ CLAIMED = {
    note='with several overlapping heartbeat workers (H < T) the reconnect-cause clause is lenient; see DESIGN.md.'),
  'C10': dict(tech=TUN + '; goroutine leaks via synctest deadlock detection and census; race detector on the same schedules in the thorough tier',
    text='Close injected at a random position of every scenario family (sender, receiver, link, heartbeat), 1..4 concurrent closers, socket failures, slow DiscReq writes: CloseBounded, OneDisc, InboundClosedAfterClose, SendAfterCloseFails, NoLeak, NoPanic (a crashed driver run becomes a Crash event), NoRace (thorough; reports classified, known finding C10-F1 = the close/send pattern on the helper channels).',
-   note='the data-race clause is decided by the Go race detector, not by TLC; real-socket receiver goroutine leak is out of reach of the in-memory socket.'),
+   note='the data-race clause is decided by the Go race detector, not by TLC; deadlocks that involve the client\'s own locks are only visible in the scaled real-time runs (virtual time cannot advance through a lock wait: such runs are counted as stuck, never judged).'),
  'C13': dict(tech='model checking (TLC) of Router.tla + trace validation of the real router client against the RouterObs observers (scaled real time) + replay conformance of TLC-generated behaviours',
    text='Pace (exact lower bound between successful transmissions), BusyWindow (no transmission inside the back-off window measured from the busy-locked trace point), BusyWait (announced wait, cap, control), BusyTaken, Resumes; OnePerWaiter is checked on the FIFO model and reported as drift on real traces.',
    note='real time: 300 us slack on lower bounds; needs the build-tag trace points busy-wait/busy-locked.'),
@@ -29,7 +29,7 @@ CLAIMED = {
    note='needs the lost-locked trace point; real time.'),
  'C17': dict(tech=TUN + ' (tunnel in virtual time, router in real time)',
    text='InOrder judged on bursts of 2..64 accepted telegrams x consumer behaviours (always ready, stalled, intermittent, stalls longer than the resend interval) through Tunnel, GroupTunnel, Router and GroupRouter. Known findings C17-F1/F2 (overflow goroutines overtaken) are matched by witness patterns that use the parked trace points; any other reordering is a violation.',
-   note='in real time every overtaking of an overflow delivery is attributed to the known finding.'),
+   note='in real time every overtaking of an overflow delivery is attributed to the known finding; a telegram handed over twice or never is not (C17.Sequence). Defects below the injected socket interface are the socket-level checks\' (C16, C01).'),
 }
 COD = 'TLA+ reference specification evaluated by TLC over input/output records logged from the real codec (record validation); theorems of the reference checked by TLC over finite domains'
 CLAIMED.update({
@@ -41,8 +41,8 @@ CLAIMED.update({
    note='the reference layout is written from the cEMI specification independently of the Go code; exhaustive over the stated finite domains.'),
  'C12': dict(tech=COD + '; group clients on the in-memory socket', text='Outbound mapping (one frame, right service and message code, group flag, APCI, payload, standard-frame flag iff <= 15 bytes, hops 6, low priority) for payload lengths 0..254 through GroupRouter and GroupTunnel, inbound filter over all message kinds x address types x 16 APCI x unit kinds, end-to-end A->B normalisation, group channel closes with the client.',
    note='real time on the in-memory socket; a non-event is concluded after 4 ms of silence.'),
- 'C15': dict(tech=COD, text='Every value of C02 plus oversize parts (info/data 256..600, names 30..80, non-Latin-1 names) packed into buffers of the reported size pre-filled with 0x00, 0xFF and random bytes followed by 32 guard bytes: NoPanic, GuardIntact, Deterministic, SizeExact (= reference size), HeaderLen, Truncation (= reference bytes).',
-   note='datagram length at the socket equals len(AllocAndPack) by construction of TunnelSocket.Send; not re-measured on a real socket here.'),
+ 'C15': dict(tech=COD, text='Every value of C02 plus oversize parts (info/data 256..600, names 30..80, non-Latin-1 names) packed into buffers of the reported size pre-filled with 0x00, 0xFF and random bytes followed by 32 guard bytes: NoPanic, GuardIntact, Deterministic, SizeExact (= reference size), HeaderLen, Truncation (= reference bytes); datagrams leaving real tunnel / router sockets are exactly the frame, whatever was sent before (netdrv TestC15Datagram).',
+   note='datagram lengths are measured on real sockets (tunnel UDP over loopback, router over multicast loopback; the router half is skipped when multicast is unusable).'),
  'C18': dict(tech=COD, text='All 65,535 non-zero addresses of both kinds formatted, tokenised and parsed back; all component triples/pairs over the documented ranges widened by 3 (incl. negatives); raw forms; a grammar of malformed shapes (component counts 1..5, empty/junk components, wrong and exotic separators); constructors over 4096 systematic + seeded arguments. TLC compares with spec/Addr.tla (and proves the round trip on the reference for all addresses).',
    note='tokenisation (split + strconv.Atoi) is the trusted lexical step.'),
 })
